@@ -10,37 +10,38 @@ import Sio.Model.Dispatch
 namespace Sio.C13
 open Sio.Dispatch
 
-/-- some function handler is eligible for `(ns, ev)` -/
+/-- some function handler is eligible for `(ns, ev)`: an exact-name handler (never for an event
+    literally named `"*"`) or, for a non-reserved event, a catch-all event handler -/
 def eligibleFn (reserved : List Ev) (r : Reg) (ns : Ns) (ev : Ev) : Bool :=
-  r.fn ns ev || r.fn star ev || (!reserved.contains ev && (r.fn ns star || r.fn star star))
+  r.exact ns ev || r.exact star ev || (!reserved.contains ev && (r.fn ns star || r.fn star star))
 
 /-! ### the precedence table -/
 
 /-- General form (server transcription): `resolveS` is the documented table, for every reserved
-    list, registry, namespace and event (reserved or not; `"*"` as a name included). -/
+    list, registry, namespace and event (reserved or not; `"*"` as a name included: `Reg.exact` is false for it). -/
 theorem precedence_table_S (reserved : List Ev) (r : Reg) (ns : Ns) (ev : Ev) :
     resolveS reserved r ns ev =
-      table (reserved.contains ev) (r.fn ns ev) (r.fn ns star) (r.fn star ev) (r.fn star star)
+      table (reserved.contains ev) (r.exact ns ev) (r.fn ns star) (r.exact star ev) (r.fn star star)
         (r.cls ns) (r.cls star) (r.hasMethod ns ev) (r.hasMethod star ev) := by
   simp only [resolveS, getEventHandler, eventHandlerNs, eventHandlerStar, getNamespaceHandlerS,
     triggerEvent, table, Reg.hasMethod]
-  cases reserved.contains ev <;> cases r.fn ns ev <;> cases r.fn ns star <;> cases r.fn star ev <;>
-    cases r.fn star star <;> cases r.cls ns <;> cases r.cls star <;> rfl
+  cases reserved.contains ev <;> cases r.exact ns ev <;> cases r.fn ns star <;>
+    cases r.exact star ev <;> cases r.fn star star <;> cases r.cls ns <;> cases r.cls star <;> rfl
 
 /-- General form (client transcription). -/
 theorem precedence_table_C (reserved : List Ev) (r : Reg) (ns : Ns) (ev : Ev) :
     resolveC reserved r ns ev =
-      table (reserved.contains ev) (r.fn ns ev) (r.fn ns star) (r.fn star ev) (r.fn star star)
+      table (reserved.contains ev) (r.exact ns ev) (r.fn ns star) (r.exact star ev) (r.fn star star)
         (r.cls ns) (r.cls star) (r.hasMethod ns ev) (r.hasMethod star ev) := by
   simp only [resolveC, getEventHandler, eventHandlerNs, eventHandlerStar, getNamespaceHandlerC,
     triggerEvent, table, Reg.hasMethod]
-  cases reserved.contains ev <;> cases r.fn ns ev <;> cases r.fn ns star <;> cases r.fn star ev <;>
-    cases r.fn star star <;> cases r.cls ns <;> cases r.cls star <;> rfl
+  cases reserved.contains ev <;> cases r.exact ns ev <;> cases r.fn ns star <;>
+    cases r.exact star ev <;> cases r.fn star star <;> cases r.cls ns <;> cases r.cls star <;> rfl
 
 /-- All four classes, with the regenerated reserved lists. -/
 theorem precedence_table (k : Kind) (r : Reg) (ns : Ns) (ev : Ev) :
     resolve k r ns ev =
-      table ((reservedOf k).contains ev) (r.fn ns ev) (r.fn ns star) (r.fn star ev)
+      table ((reservedOf k).contains ev) (r.exact ns ev) (r.fn ns star) (r.exact star ev)
         (r.fn star star) (r.cls ns) (r.cls star) (r.hasMethod ns ev) (r.hasMethod star ev) := by
   cases k <;> simp only [resolve, reservedOf]
   · exact precedence_table_S _ r ns ev
@@ -54,15 +55,16 @@ theorem contains_false {l : List Ev} {ev : Ev} (h : ev ∉ l) : l.contains ev = 
 theorem contains_true {l : List Ev} {ev : Ev} (h : ev ∈ l) : l.contains ev = true := by
   simpa [List.contains_iff_mem] using h
 
-/-- **The six-line table of the statement**, for an ordinary (non-reserved) event, on every one of
-    the four classes, for every registry; a class slot invokes the attribute `on_<event>`
-    (`methodName ev`) if the class has it.  The hypotheses `ns ≠ "*"`, `ev ≠ "*"` are what makes the
-    six presence bits independent (see `precedence_realizable`); the equation itself does not
-    need them. -/
-theorem precedence (k : Kind) (r : Reg) (ns : Ns) (ev : Ev)
-    (_hns : ns ≠ star) (_hev : ev ≠ star) (hres : ev ∉ reservedOf k) :
+/-- **The six-line table of the statement**, on every one of the four classes, for every registry,
+    every namespace and EVERY non-reserved event name — an event literally named `"*"` included.
+    The two exact-name lines test `Reg.exact` (`ev ≠ "*"` and a handler registered under that
+    name), so for `ev = "*"` they are never taken (`star_event`).  A class slot invokes the
+    attribute `on_<event>` (`methodName ev`) if the class has it.  No side condition on `ns` is
+    needed for the equation; what it means for a namespace literally named `"*"` is spelled out in
+    `star_namespace`. -/
+theorem precedence (k : Kind) (r : Reg) (ns : Ns) (ev : Ev) (hres : ev ∉ reservedOf k) :
     resolve k r ns ev =
-      match r.fn ns ev, r.fn ns star, r.fn star ev, r.fn star star, r.cls ns, r.cls star with
+      match r.exact ns ev, r.fn ns star, r.exact star ev, r.fn star star, r.cls ns, r.cls star with
       | true,  _,     _,     _,     _,     _     => .invoke .fnNsEv []
       | false, true,  _,     _,     _,     _     => .invoke .fnNsStar [.ev]
       | false, false, true,  _,     _,     _     => .invoke .fnStarEv [.ns]
@@ -74,14 +76,14 @@ theorem precedence (k : Kind) (r : Reg) (ns : Ns) (ev : Ev)
       | false, false, false, false, false, false => .notHandled := by
   rw [precedence_table, contains_false hres]
   simp only [table, Reg.hasMethod]
-  cases r.fn ns ev <;> cases r.fn ns star <;> cases r.fn star ev <;>
+  cases r.exact ns ev <;> cases r.fn ns star <;> cases r.exact star ev <;>
     cases r.fn star star <;> cases r.cls ns <;> cases r.cls star <;> rfl
 
 /-- The same table for a reserved event: the two catch-all *event* lines disappear, everything else
     keeps its place. -/
 theorem precedence_reserved (k : Kind) (r : Reg) (ns : Ns) (ev : Ev) (hres : ev ∈ reservedOf k) :
     resolve k r ns ev =
-      match r.fn ns ev, r.fn star ev, r.cls ns, r.cls star with
+      match r.exact ns ev, r.exact star ev, r.cls ns, r.cls star with
       | true,  _,     _,     _     => .invoke .fnNsEv []
       | false, true,  _,     _     => .invoke .fnStarEv [.ns]
       | false, false, true,  _     =>
@@ -91,29 +93,79 @@ theorem precedence_reserved (k : Kind) (r : Reg) (ns : Ns) (ev : Ev) (hres : ev 
       | false, false, false, false => .notHandled := by
   rw [precedence_table, contains_true hres]
   simp only [table, Reg.hasMethod]
-  cases r.fn ns ev <;> cases r.fn ns star <;> cases r.fn star ev <;>
+  cases r.exact ns ev <;> cases r.fn ns star <;> cases r.exact star ev <;>
     cases r.fn star star <;> cases r.cls ns <;> cases r.cls star <;> rfl
 
-/-- Every line of the table is reachable: for `ns ≠ "*"`, `ev ≠ "*"` the six presence bits and the
-    two "class has the method" bits are independent — some registry realises any combination
-    (non-vacuity of `precedence`, and the reason for its two side conditions). -/
-theorem precedence_realizable (ns : Ns) (ev : Ev) (hns : ns ≠ star) (hev : ev ≠ star)
+theorem exact_star (r : Reg) (n : Ns) : r.exact n star = false := by
+  simp [Reg.exact]
+
+theorem exact_of_ne (r : Reg) (n : Ns) {ev : Ev} (h : ev ≠ star) : r.exact n ev = r.fn n ev := by
+  simp [Reg.exact, h]
+
+/-- **An event literally named `"*"`** (it is not reserved on any class) is routed like any other
+    event without a handler of its own: to the namespace's catch-all event handler with the event
+    name prepended, else to `handlers['*']['*']` with `[ev, ns]` prepended, else to the class-based
+    namespaces (method `on_*`) — and NEVER as an exact-name match, whatever is registered: the
+    catch-all handlers are not invoked without the event name.  (Before /repo 6dcbd32 the first
+    line was `invoke fnNsEv []`: arguments shifted by one.) -/
+theorem star_event (k : Kind) (r : Reg) (ns : Ns) :
+    resolve k r ns star =
+      (match r.fn ns star, r.fn star star, r.cls ns, r.cls star with
+       | true,  _,     _,     _     => .invoke .fnNsStar [.ev]
+       | false, true,  _,     _     => .invoke .fnStarStar [.ev, .ns]
+       | false, false, true,  _     =>
+         bif r.attr ns (methodName star) then .invoke .clsNs [] else .dropped .clsNs
+       | false, false, false, true  =>
+         bif r.attr star (methodName star) then .invoke .clsStar [.ns] else .dropped .clsStar
+       | false, false, false, false => .notHandled) ∧
+    (∀ pre, resolve k r ns star ≠ .invoke .fnNsEv pre ∧ resolve k r ns star ≠ .invoke .fnStarEv pre) := by
+  have hres : star ∉ reservedOf k := by cases k <;> decide
+  rw [precedence k r ns star hres, exact_star, exact_star]
+  constructor
+  · cases r.fn ns star <;> cases r.fn star star <;> cases r.cls ns <;> cases r.cls star <;> rfl
+  · intro pre
+    cases r.fn ns star <;> cases r.fn star star <;> cases r.cls ns <;> cases r.cls star <;>
+      cases r.attr ns (methodName star) <;> cases r.attr star (methodName star) <;> simp
+
+/-- **A namespace literally named `"*"`** (the default packet format cannot express one — a
+    namespace starts with `/` — but a msgpack peer can send it): AS CODED, the namespace key and the
+    catch-all key coincide, so the catch-all namespace's handlers are found by the *first* pair of
+    lookups and are invoked WITHOUT the namespace prepended (`[]` instead of `[ns]`, `[ev]` instead
+    of `[ev, ns]`; a class-based catch-all namespace likewise gets no namespace argument).  This is
+    what the code does, not what the statement asks for; see the finding reported with this check. -/
+theorem star_namespace (k : Kind) (r : Reg) (ev : Ev) (hres : ev ∉ reservedOf k) :
+    resolve k r star ev =
+      match r.exact star ev, r.fn star star, r.cls star with
+      | true,  _,     _     => .invoke .fnNsEv []
+      | false, true,  _     => .invoke .fnNsStar [.ev]
+      | false, false, true  =>
+        bif r.attr star (methodName ev) then .invoke .clsNs [] else .dropped .clsNs
+      | false, false, false => .notHandled := by
+  rw [precedence k r star ev hres]
+  cases r.exact star ev <;> cases r.fn star star <;> cases r.cls star <;> rfl
+
+/-- Every line of the table is reachable: for `ns ≠ "*"` the presence bits and the two "class has
+    the method" bits are independent — some registry realises any combination (non-vacuity of
+    `precedence`); for `ev = "*"` the two exact-name bits are necessarily false, the other six
+    remain free. -/
+theorem precedence_realizable (ns : Ns) (ev : Ev) (hns : ns ≠ star)
     (b1 b2 b3 b4 b5 b6 m5 m6 : Bool) :
-    ∃ r : Reg, r.fn ns ev = b1 ∧ r.fn ns star = b2 ∧ r.fn star ev = b3 ∧ r.fn star star = b4 ∧
+    ∃ r : Reg, r.exact ns ev = (ev != star && b1) ∧ r.fn ns star = b2 ∧
+      r.exact star ev = (ev != star && b3) ∧ r.fn star star = b4 ∧
       r.cls ns = b5 ∧ r.cls star = b6 ∧ r.attr ns (methodName ev) = m5 ∧
       r.attr star (methodName ev) = m6 := by
   refine ⟨{ fn := fun n e => if n = star then (if e = star then b4 else b3)
                               else (if e = star then b2 else b1),
             cls := fun n => if n = star then b6 else b5,
             attr := fun n _ => if n = star then m6 else m5 }, ?_⟩
-  simp [hns, hev]
+  by_cases hev : ev = star <;> simp [Reg.exact, hns, hev]
 
 /-- The result depends on the registry only through the eight bits of the table: whatever else is
     registered (other events of the same namespace, other namespaces, other attributes of the
     classes) is irrelevant. -/
 theorem unrelated_irrelevant (k : Kind) (r r' : Reg) (ns : Ns) (ev : Ev)
-    (h1 : r.fn ns ev = r'.fn ns ev) (h2 : r.fn ns star = r'.fn ns star)
-    (h3 : r.fn star ev = r'.fn star ev) (h4 : r.fn star star = r'.fn star star)
+    (h1 : r.exact ns ev = r'.exact ns ev) (h2 : r.fn ns star = r'.fn ns star)
+    (h3 : r.exact star ev = r'.exact star ev) (h4 : r.fn star star = r'.fn star star)
     (h5 : r.cls ns = r'.cls ns) (h6 : r.cls star = r'.cls star)
     (h7 : r.attr ns (methodName ev) = r'.attr ns (methodName ev))
     (h8 : r.attr star (methodName ev) = r'.attr star (methodName ev)) :
@@ -181,7 +233,7 @@ theorem table_reserved : ∀ b1 b2 b3 b4 b5 b6 m5 m6 : Bool,
 theorem reserved_never_catchall_event (k : Kind) (r : Reg) (ns : Ns) (ev : Ev)
     (hres : ev ∈ reservedOf k) (pre : List PArg) :
     resolve k r ns ev ≠ .invoke .fnNsStar pre ∧ resolve k r ns ev ≠ .invoke .fnStarStar pre := by
-  have h := table_reserved (r.fn ns ev) (r.fn ns star) (r.fn star ev) (r.fn star star) (r.cls ns)
+  have h := table_reserved (r.exact ns ev) (r.fn ns star) (r.exact star ev) (r.fn star star) (r.cls ns)
     (r.cls star) (r.hasMethod ns ev) (r.hasMethod star ev)
   rw [precedence_table, contains_true hres]
   constructor <;> (intro e; rw [e] at h; simp [isCatchAllEvent] at h)
@@ -261,7 +313,7 @@ theorem method_name (k : Kind) (r : Reg) (ns : Ns) (ev : Ev) (slot : Slot) (pre 
   rw [← hm]
   have key : ∀ res b1 b2 b3 b4 b5 b6 m5 m6 : Bool,
       clsOk b5 b6 m5 m6 (table res b1 b2 b3 b4 b5 b6 m5 m6) = true := by decide
-  have h' := key ((reservedOf k).contains ev) (r.fn ns ev) (r.fn ns star) (r.fn star ev)
+  have h' := key ((reservedOf k).contains ev) (r.exact ns ev) (r.fn ns star) (r.exact star ev)
     (r.fn star star) (r.cls ns) (r.cls star) (r.hasMethod ns ev) (r.hasMethod star ev)
   rw [← precedence_table, h] at h'
   simpa [clsOk, hs, Reg.hasMethod, and_assoc] using h'
@@ -293,6 +345,12 @@ example : resolveClient exReg "/chat".toList "zzz".toList = .invoke .fnStarStar 
 example : resolveClient exReg "/chat".toList "connect_error".toList = .dropped .clsNs := by decide
 example : resolveServer exReg "/chat".toList "connect_error".toList
     = .invoke .fnStarStar [.ev, .ns] := by decide
+-- an event literally named "*": catch-all WITH the event name (and namespace) prepended
+example : resolveServer exReg "/chat".toList star = .invoke .fnStarStar [.ev, .ns] := by decide
+example : resolveAsyncClient { exReg with fn := fun n e => n = "/chat".toList ∧ e = star } "/chat".toList star
+    = .invoke .fnNsStar [.ev] := by decide
+-- a namespace literally named "*": the catch-all namespace's handler runs without the namespace
+example : resolveServer exReg star "msg".toList = .invoke .fnNsEv [] := by decide
 example : "msg".toList ∉ reservedOf .server ∧ "/chat".toList ≠ star ∧ "msg".toList ≠ star := by decide
 example : eligibleFn (reservedOf .asyncClient) exReg "/chat".toList "connect".toList = false ∧
     exReg.cls "/chat".toList = true ∧ exReg.attr "/chat".toList (methodName "connect".toList) = false ∧
